@@ -1,10 +1,32 @@
 //! Known findings: genuine defects recorded rather than repaired.  /verif/known_findings.json
 //! lists them (never written at run time); each id has a predicate here that is applied to the
-//! *minimised* failing trace and its clause.  An entry whose id has no predicate is a harness
-//! error; a failure that matches no open entry is a VIOLATION.
+//! *minimised* failing trace, its clause and detail.  An entry whose id has no predicate is a
+//! harness error; a failure that matches no open entry is a VIOLATION.
 
 use crate::engine::Finding;
 use crate::scn::Scn;
+
+/// index of the failing operation, from the "op N:" / "op N " prefix every detail carries
+fn failing_op(detail: &str) -> Option<usize> {
+    let d = detail.strip_prefix("op ")?;
+    let end = d.find(|c: char| !c.is_ascii_digit())?;
+    d[..end].parse().ok()
+}
+
+fn kf1(scn: &Scn, clause: &str, detail: &str) -> bool {
+    // C11: try_seek into the block just past the limit (block index 2^w - 1, byte offset != 0)
+    // returns Ok and wraps the counter; 32- and 64-bit CTR flavours through cipher's wrapper.
+    if clause != "seek_past_limit" || !(scn.mode.starts_with("ctr32") || scn.mode.starts_with("ctr64")) {
+        return false;
+    }
+    let l: u128 = if scn.mode.starts_with("ctr32") { (1u128 << 32) - 1 } else { (1u128 << 64) - 1 };
+    match failing_op(detail).and_then(|i| scn.ops.get(i)) {
+        Some(op) if op.k == "seek" => op.p / scn.bs as u128 == l && op.p % scn.bs as u128 != 0,
+        _ => false,
+    }
+}
+
+const PREDICATES: [(&str, fn(&Scn, &str, &str) -> bool); 1] = [("KF-1", kf1)];
 
 /// returns the id of the matching open finding
 pub fn classify(findings: &[Finding], check: &str, scn: &Scn, clause: &str, detail: &str) -> Option<String> {
@@ -12,19 +34,21 @@ pub fn classify(findings: &[Finding], check: &str, scn: &Scn, clause: &str, deta
         if f.property != check || f.status != "open" {
             continue;
         }
-        let hit = match f.id.as_str() {
-            _ => {
-                let _ = (scn, clause, detail);
-                false
+        if let Some((_, p)) = PREDICATES.iter().find(|(id, _)| *id == f.id) {
+            if p(scn, clause, detail) {
+                return Some(f.id.clone());
             }
-        };
-        if hit {
-            return Some(f.id.clone());
         }
     }
     None
 }
 
-pub fn known_ids() -> &'static [&'static str] {
-    &[]
+/// every listed open finding must have a predicate
+pub fn validate(findings: &[Finding]) -> Result<(), String> {
+    for f in findings {
+        if f.status == "open" && !PREDICATES.iter().any(|(id, _)| *id == f.id) {
+            return Err(format!("known finding {} has no predicate compiled into the harness", f.id));
+        }
+    }
+    Ok(())
 }
